@@ -27,3 +27,25 @@ impl<K, V> IndexMap<K, V> {
     #[verifier::external_body]
     pub fn is_empty(&self) -> (r: bool) ensures r == (self.entries().len() == 0) { unimplemented!() }
 }
+
+// insertion-ordered insert: overwrite in place when the key is present, append otherwise
+pub open spec fn im_insert<K, V>(s: Seq<(K, V)>, k: K, v: V) -> Seq<(K, V)> {
+    if exists|i: int| 0 <= i < s.len() && s[i].0 == k {
+        let i = choose|i: int| 0 <= i < s.len() && s[i].0 == k;
+        s.update(i, (k, v))
+    } else {
+        s.push((k, v))
+    }
+}
+impl<K, V> IndexMap<K, V> {
+    #[verifier::external_body]
+    pub fn insert(&mut self, k: K, v: V) -> (r: Option<V>)
+        requires old(self).distinct(),
+        ensures final(self).entries() == im_insert(old(self).entries(), k, v), final(self).distinct(),
+            r is Some <==> old(self).has(k),
+    { unimplemented!() }
+    #[verifier::external_body]
+    pub fn clear(&mut self)
+        ensures final(self).entries().len() == 0, final(self).distinct(),
+    { unimplemented!() }
+}
